@@ -393,3 +393,28 @@ package randomness
 //@     invariant forall r int, c int :: {matrix[r][c]} 0 <= r && r < j && 0 <= c && c < 32 ==> matrix[r][c] == (bits@pre[i*1024 + r*32 + c] ? 1 : 0)
 //@     invariant forall c int :: {matrix[j][c]} 0 <= c && c < k ==> matrix[j][c] == (bits@pre[i*1024 + j*32 + c] ? 1 : 0)
 //@   assert after loop 3: forall r int, c int :: {matrix[r][c]} 0 <= r && r < 32 && 0 <= c && c < 32 ==> matrix[r][c] == (bits@pre[i*1024 + r*32 + c] ? 1 : 0)
+
+// ---------------------------------------------------------------------------------------------
+// linear_complexity.go, utils.go (linearComplexity)
+// Proved: crash freedom, termination, frames, block structure and classification formula.
+// That linearComplexity() returns the true shortest-LFSR length is NOT proved (bounded stand-in).
+
+//@ func linearComplexity
+//@   requires 1 <= M && M <= len(a)
+//@   modifies nothing
+//@   ensures 0 <= r0 && r0 <= M
+//@   loop 1
+//@     invariant 0 <= i && i <= M
+//@   loop 2
+//@     invariant 0 <= N_ && N_ <= M && 0 <= L && L <= N_ && -1 <= m && m < N_ + (N_ == 0 ? 1 : 0)
+//@     decreases M - N_
+//@   loop 3
+//@     invariant 1 <= i && i <= L + 1
+//@   loop 4
+//@     invariant 0 <= i && i <= M
+//@   loop 5
+//@     invariant 0 <= j && j <= M
+//@   loop 6
+//@     invariant 0 <= i && i <= M
+//@   loop 7
+//@     invariant 0 <= i && i <= M
